@@ -988,7 +988,7 @@ lemma(
 # negotiation, initiator side: the responses reach the channel(s) that sent the request
 # ---------------------------------------------------------------------------
 CONN_VIEW = Inst('bumble.l2cap:LeCreditBasedChannel#conn')
-model('bumble.l2cap:ChannelManager#init', fields=dict(channels=Any, le_coc_requests=Any, pending_credit_based_connections=Any))
+model('bumble.l2cap:ChannelManager#init', fields=dict(channels=Any, le_coc_requests=Any, le_coc_channels=Any, pending_credit_based_connections=Any))
 
 
 def lemma_le_response(mgr, connection, ch, request, response, known, ghost):
@@ -999,9 +999,13 @@ def lemma_le_response(mgr, connection, ch, request, response, known, ghost):
     row[request.source_cid] = ch
     mgr.channels = {}
     mgr.channels[h] = row
-    mgr.le_coc_requests = {}
+    # (requests are kept per connection handle since the C09 repair of le_coc_requests)
+    pending = {}
     if known:
-        mgr.le_coc_requests[response.identifier] = request
+        pending[response.identifier] = request
+    mgr.le_coc_requests = {}
+    mgr.le_coc_requests[h] = pending
+    mgr.le_coc_channels = {}
     waiting = ch.connection_result is not None
     dcid0 = ch.destination_cid
     credits0 = ch.credits
@@ -1009,12 +1013,14 @@ def lemma_le_response(mgr, connection, ch, request, response, known, ghost):
 
     mgr.on_l2cap_le_credit_based_connection_response(connection, LE_SIG_CID, response)
 
-    assert response.identifier not in mgr.le_coc_requests  # a response is consumed once
+    assert response.identifier not in mgr.le_coc_requests[h]  # a response is consumed once
     if known and waiting and response.result == LE_OK:
         # the initiator takes the peer's endpoint, MTU, MPS and credits exactly as in the response
         assert ch.destination_cid == response.destination_cid and ch.peer_mtu == response.mtu and ch.peer_mps == response.mps
         assert ch.credits == response.initial_credits and ch.state == CONNECTED
         assert ghost.resolved == 1 and ghost.failed == 0
+        # and is addressed by the peer's CID from now on (credits, disconnection), before any other PDU is processed
+        assert mgr.le_coc_channels[h][response.destination_cid] is ch
     if known and waiting and response.result != LE_OK:
         assert ch.state == CONNECTION_ERROR and ch.credits == credits0 and ghost.failed == 1 and ghost.resolved == 0
     if not known:
